@@ -415,6 +415,31 @@ func realInspect(r *ev.Run) {
 	r.Outcome("real-inspect:lock-kept")
 }
 
+// envReference: an invocation that refers to the environment ($VAR) is
+// recorded with the reference expanded; re-attaching with the identical
+// invocation file must be accepted, and an edit of the text around the
+// reference must be refused.
+func envReference(r *ev.Run) {
+	os.Setenv("VERIF_ENVREF", "/data/run 1")
+	defs := "stage ECHO(\n    in  string s,\n    out string y,\n    src comp   \"ECHO\",\n)\n\npipeline TOP(\n    in  string s,\n    out string y,\n)\n{\n    call ECHO(\n        s = self.s,\n    )\n\n    return (\n        y = ECHO.y,\n    )\n}\n"
+	call := "@include \"defs.mro\"\n\ncall TOP(\n    s = \"$VERIF_ENVREF/x\",\n)\n"
+	changed := strings.Replace(call, "/x", "/y", 1)
+	got := psx.ReattachProbe([]string{"ECHO"}, defs, call, defs, call, false)
+	r.Eval("env-reference|same")
+	if got != "ok" {
+		r.Report(ev.Finding{Sig: "C15:env-reference:same-invocation-refused", What: "re-attach with the identical invocation file, which holds a reference to the environment (s = \"$VERIF_ENVREF/x\"), returned " + got, Case: Case{Base: -1, Kind: "env-reference-same"}})
+	} else {
+		r.Outcome("env-reference:same:ok")
+	}
+	got = psx.ReattachProbe([]string{"ECHO"}, defs, call, defs, changed, false)
+	r.Eval("env-reference|changed")
+	if got != "refused-invocation" {
+		r.Report(ev.Finding{Sig: "C15:env-reference:changed-invocation-accepted", What: "re-attach with the argument next to the environment reference changed returned " + got, Case: Case{Base: -1, Kind: "env-reference-changed"}})
+	} else {
+		r.Outcome("env-reference:changed:refused")
+	}
+}
+
 func lockHistories(r *ev.Run, bs []func() *progen.Program) {
 	p := bs[1]()
 	var stages []string
@@ -482,6 +507,10 @@ func main() {
 			lockHistories(r, bs)
 			r.Finish()
 		}
+		if strings.HasPrefix(c.Kind, "env-reference") {
+			envReference(r)
+			r.Finish()
+		}
 		fs, note := eval(c, bs)
 		fmt.Println("note:", note)
 		for _, f := range fs {
@@ -537,6 +566,7 @@ func main() {
 		}
 	}
 	lockHistories(r, bs)
+	envReference(r)
 	realRetryReattach(r)
 	realInspect(r)
 	r.Assume("edits the repository documents as ignored (retain, resources, volatile, chunk parameters) are not in the catalogue")
